@@ -3,8 +3,10 @@ T = lambda q, t: {"quick": q, "thorough": t}
 SPEC = dict(
     level="exploration",
     exhaustive=True,
-    technique="reference acceptance predicate + output scans on ValidateQuery / ValidateLimit; exhaustive over all 0-2 symbol strings of a ; thorough adds a coverage-guided go test -fuzz workload (FuzzValidateQuery) with the same oracles"
-              "126-symbol hostile alphabet and over the limit integers, random beyond; CLI echo spot check",
+    technique="reference acceptance predicate + output scans on ValidateQuery / ValidateLimit; exhaustive over all 0-2 symbol strings of a "
+              "158-symbol hostile alphabet (incl. letters whose low byte or low seven bits equal a metacharacter, blank or control byte) and over the "
+              "limit integers, random beyond; CLI echo check (incl. queries wrapped in quote characters); thorough adds a coverage-guided go test -fuzz "
+              "workload (FuzzValidateQuery) with the same oracles",
     level_text="ValidateQuery is a pure function of a byte string and ValidateLimit of an int, so both are decided in-process against a "
                "predicate written from the statement. Every string of 0, 1 and 2 symbols over the hostile alphabet (every Cc, every "
                "Zs/Zl/Zp, format characters, the six metacharacters, content runes of 1-4 bytes, every invalid-UTF-8 byte class) and "
